@@ -49,3 +49,50 @@ func zzH_C02() {
 		zzAssert(epan == nil, "parsed-function-usable")
 	}
 }
+
+func init() { zzHarnesses["zzH_C17_restrict"] = zzH_C17_restrict }
+
+// zzH_C17_restrict: documented semantic restrictions decided on strings with
+// free bytes. "two-current": `$[?(@.a` + free bytes + `@.b)]` may only be
+// accepted when the free bytes are a logical operator (any comparison between
+// two `@` operands is prohibited). "script": `$[(` + free bytes + `)]` is
+// never accepted.
+func zzH_C17_restrict() {
+	kind := zzParam("restriction")
+	s := zzHoleBytes(zzParam("path"), zzParam("holepos"), "h")
+	lo, n := zzParamInt("lo"), zzParamInt("n")
+	if kind == "two-current" {
+		// assumptions come before the code they constrain
+		mid := s[lo : lo+n]
+		blank := true
+		for i := 0; i < len(mid); i++ {
+			c := mid[i]
+			zzAssume(c == '=' || c == '!' || c == '<' || c == '>' || c == '~' || c == ' ')
+			if c != ' ' {
+				blank = false
+			}
+		}
+		zzAssume(!blank)
+	}
+	f, err, pan := zzTryParse(s, zzConfig())
+	zzAssert(pan == nil, "no-panic")
+	if pan != nil {
+		return
+	}
+	zzOutStr("kind", zzErrKind(err))
+	switch kind {
+	case "two-current":
+		// the free bytes range over the characters comparison operators are made of
+		// (and blanks): whatever operator they spell, two `@` operands must be rejected
+		zzAssert(f == nil && err != nil, "comparison-of-two-current-nodes-is-rejected")
+		if err != nil {
+			zzAssert(zzErrKind(err) == "InvalidSyntax", "comparison-of-two-current-nodes-is-rejected")
+		}
+	case "script":
+		zzAssert(f == nil && err != nil, "script-is-rejected")
+		if err != nil {
+			k := zzErrKind(err)
+			zzAssert(k == "NotSupported" || k == "InvalidSyntax", "script-is-rejected")
+		}
+	}
+}
